@@ -37,6 +37,7 @@ Inductive case :=
 | CSign (tk : N) (key msg msg2 key2 : bytes)
 | CWit (wk : N) (hash key : bytes) (dp : option bytes) (magic : option N)   (* 0/1 vkey witness normal/extended, 2 Icarus, 3 Daedalus *)
 | CDerive (root : bytes) (path : list N)
+| CPkHash (pk : bytes)                              (* PublicKey::from_bytes(pk).hash() *)
 | CPubDerive (xpub : bytes) (path : list N)        (* Bip32PublicKey::from_bytes then derive along the path *)
 | CBip39 (entropy password : bytes)
 | CX128 (k : bytes)
@@ -144,6 +145,9 @@ Definition obs_pubderive (xpub : bytes) (path : list N) : obs :=
   | _ => [Err]
   end.
 
+Definition obs_pkhash (pk : bytes) : obs :=
+  match kt_from_binary T_pk pk with Ok b => [Ok (pk_hash P b)] | _ => [Err] end.
+
 Definition obs_bip39 (entropy password : bytes) : obs :=
   let k := from_bip39_entropy P entropy password in [Ok k; xprv_from_bytes k].
 
@@ -169,6 +173,7 @@ Definition model_obs (c : case) : obs :=
   | CWit wk h k dp mg => obs_wit wk h k dp mg
   | CDerive r p => obs_derive r p
   | CPubDerive x p => obs_pubderive x p
+  | CPkHash pk => obs_pkhash pk
   | CBip39 e pw => obs_bip39 e pw
   | CX128 k => obs_x128 k
   | CEnc3 tp ts tn td => obs_enc3 tp ts tn td
@@ -269,6 +274,7 @@ Definition stmt (c : case) (io : obs) : bool :=
       (if all_soft path then res_eqb rp (Ok pf) else is_err_b rp) && list_eqb ra rb && list_eqb ca cb
   | CDerive _ _, [Err] => true
   | CPubDerive _ path, [r] => if all_soft path then true else is_err_b r
+  | CPkHash _, [r] => true          (* the hash function is uninterpreted: the statement is the equality with the model *)
   | CBip39 _ _, [Ok k; rk] => res_eqb rk (Ok k)
   | CX128 k, [Ok x; rk] => res_eqb rk (Ok k) && (len x =? 128) && list_eqb (firstn 64 x) (firstn 64 k) && list_eqb (skipn 96 x) (skipn 64 k)
   | CX128 _, [Err] => true
